@@ -656,3 +656,21 @@ def r12_4(ctx):
                    f"every feasible path to this error passes an end-of-source edge ({len(ev)} such edge(s) in `{r.name}`)" if ok else
                    ("the error site is not reached in its function's supergraph" if not cnodes else "an UnexpectedEof error is built on a path without evidence that the source has ended (buffered data shorter than a unit, a short read, ..): a stream that is merely slow would be reported as truncated"))
     ctx.ob("eof-error-sites", True, "lib", f"{n} synthetic UnexpectedEof error site(s) examined", trivial=n == 0)
+
+
+@rule("R16.5", 1, "no result of a write or flush is thrown away on the way to standard output: a failing write that is dropped (`.ok()`, `let _ =`, an unread match) would let xt exit 0 with output missing and nothing on stderr", ["C16", "C13"])
+def r16_5(ctx):
+    # R12.1's discard classifier, restricted to io::Write methods (reads and parses are C12's business, not C16's)
+    from engine import Ctx
+
+    sub = Ctx(ctx.facts, ctx.config, "R12.1")
+    r12_1(sub)
+    n = 0
+    for o in sub.obs:
+        parts = o.key.split(":")
+        if parts[0] in ("discarded", "reviewed") and len(parts) >= 4 and parts[3] in ("write", "write_all", "write_fmt", "write_vectored", "flush"):
+            n += 1
+            ctx.ob("write-result:" + ":".join(parts[1:]), o.ok, o.site, o.detail, trivial=o.trivial)
+    calls = [o for o in sub.obs if o.key == "result-producing-calls"]
+    ctx.need(calls and calls[0].ok, "R12.1 examined too few Result-producing calls")
+    ctx.ob("write-results-examined", True, "lib+bin", f"{n} reviewed or reported write/flush result(s) among the discards R12.1 classifies; every other write result is used")
